@@ -187,6 +187,8 @@ def main(argv):
             for spec, res in extra(tier, shard_seed, idx, n, col):
                 col.feed(spec, res)
         ncases = prop.CASES[tier]
+        if os.environ.get('VV_CASES'):      # development: a shorter run
+            ncases = int(os.environ['VV_CASES'])
         if ncases and col.failure is None:
             run_hypothesis(prop, tier, shard_seed, col, ncases)
     except Exception as e:
